@@ -242,6 +242,10 @@ static RDV_SCEN: std::sync::Mutex<Option<crate::plan::Scenario>> = std::sync::Mu
 
 pub fn cmd_eval(file: &str, human: bool) {
     crate::util::quiet_panics();
+    // like the search workers: one core. (What the process can see of the machine - e.g.
+    // `std::thread::available_parallelism` - is part of the environment of a run; a replay must
+    // see what the run saw.)
+    pin_to_core(std::process::id() as usize);
     let txt = std::fs::read_to_string(file).expect("read replay file");
     let r: Replay = serde_json::from_str(&txt).expect("parse replay file");
     {
